@@ -15,7 +15,9 @@ Brief == [op |-> Ev.op, fam |-> Ev.fam, ft |-> Ev.ft, label |-> Ev.label, varian
           detail |-> IF Ev.op = "call" THEN [pos |-> Ev.pos, word |-> Ev.word, wc |-> Ev.wc, res |-> Ev.res, show |-> Ev.show,
                                             ocls |-> Ev.ocls, words |-> Ev.words, us |-> Ev.us, seed |-> Ev.seed]
                      ELSE IF Ev.op = "block" THEN [calls |-> Ev.calls, sum_words |-> Ev.sum_words, max_words |-> Ev.max_words,
-                                                   max_us |-> Ev.max_us, failed |-> Ev.failed, outlen |-> Ev.outlen]
+                                                   max_us |-> Ev.max_us, failed |-> Ev.failed, outlen |-> Ev.outlen,
+                                                   nan |-> Ev.nan, pinf |-> Ev.pinf, ninf |-> Ev.ninf, panic |-> Ev.panic, nonint |-> Ev.nonint,
+                                                   zerow |-> Ev.zerow, first_bad |-> Ev.first_bad, offenders |-> Ev.offenders]
                      ELSE [nan |-> Ev.nan, pinf |-> Ev.pinf, ninf |-> Ev.ninf, panic |-> Ev.panic, nonint |-> Ev.nonint,
                            zerow |-> Ev.zerow, offenders |-> Ev.offenders, max_words |-> Ev.max_words]]
 
@@ -24,6 +26,7 @@ Rule == IF Mode = "support"
           THEN CASE Ev.variant = "beyond-E" -> TRUE
                  [] Ev.op = "call"  -> (Ev.res = "Timeout") \/ SampleOK(Ev)      \* a hang is C05's business
                  [] Ev.op = "sweep" -> SweepOK(Ev)
+                 [] Ev.op = "block" -> SweepOK(Ev)        \* random streams: aggregates over all calls of the block
                  [] OTHER -> TRUE
           ELSE CASE Ev.variant = "beyond-E" -> (Ev.op = "call" => (Ev.res # "Timeout" /\ Ev.us < MaxMicros))   \* only: returns
                  [] Ev.op = "call"  -> CallOK(Ev)
